@@ -1,6 +1,7 @@
 import QcoVerif.Properties.C16
 import QcoVerif.Lemmas.ConnSrc
 import QcoVerif.Lemmas.FreqSrc
+import QcoVerif.Lemmas.ParkSrc
 /-
   C16 — tie to the SOURCE TEXT (DESIGN.md §2.3b).  Kept in a file of its own that nothing imports.
 -/
@@ -52,6 +53,15 @@ theorem get_lower_frequency_matches_source (e : Conn.Edge) (conn : Val) :
     callFn FreqSrc.connEnv2 Conn_get_lower_frequency_qubit_id [FreqSrc.edgeVal e, conn] =
       .int (if !Conn.onMovingSide e.1 e then e.1 else e.other e.1) :=
   FreqSrc.get_lower_matches_source e conn
+
+/-- **`get_requires_parking` as written = the model's `requiresParking`**, for every qubit and EVERY list of edges (any length, either
+    orientation, on the device or not): the two `np.any` guards, the nested loops pairing every neighbour with every edge it is part of,
+    the `zip` of the three lists and the final `any` (Lemmas/ParkSrc.lean).  `get_neighbors` (module function on an edge, method on the
+    layer) is answered by the model's `edgeNeighbors` / `neighbors`; `on_moving_side` and `is_higher_than` RUN their translated source. -/
+theorem requires_parking_matches_source (q : Nat) (es : List (Nat × Nat)) (cls : String) (i : Nat) (fs : List (String × Val)) :
+    callFn ParkSrc.parkEnv Conn_get_requires_parking [.int q, .list (es.map FreqSrc.edgeVal), .obj cls i fs] =
+      .bool (Conn.requiresParking q es) :=
+  ParkSrc.requires_parking_matches_source_obj q es cls i fs
 
 /-- the ordering the source implements is a strict total order on the three groups (what "lower-frequency member" needs). -/
 theorem freq_order_strict_total (a b : Conn.Freq) :
